@@ -320,6 +320,15 @@ func (w *World) appendTo(fi *FuncInfo, dst func(ast.Expr) bool) func(ast.Node) b
 		if !ok || len(as.Rhs) != 1 {
 			return false
 		}
+		// `dst[i] = v` into a pre-sized slice (i a variable: the position of this element)
+		if ix, isIx := as.Lhs[0].(*ast.IndexExpr); isIx && len(as.Lhs) == 1 {
+			if _, isSlice := info.TypeOf(ix.X).Underlying().(*types.Slice); isSlice {
+				if tv, known := info.Types[ix.Index]; known && tv.Value == nil {
+					return dst(ix.X)
+				}
+			}
+			return false
+		}
 		c, ok := as.Rhs[0].(*ast.CallExpr)
 		if !ok || calleeOfCall(info, c) != "builtin.append" {
 			return false
